@@ -14,7 +14,7 @@ LEVEL_TEXT = ("Static structural proof of necessary conditions, not of the prope
               "format_error* site in the closure binds to its message function through the decorator wrapper; no "
               "issue list returned inside the validator closure is discarded. Correctness of the rule predicates "
               "themselves (valid => no error; one fault => that code) is NOT decided.")
-LEVEL_EXTRA = 'Added after the seeded evaluation: (R1.4) the delimiter scan decides on the blank-stripped token text; (R1.5) no early exit skips a string-level check.'
+LEVEL_EXTRA = 'Added after the seeded evaluation: (R1.4) the delimiter scan decides on the blank-stripped token text; (R1.5) no early exit skips a string-level check. (R1.6) no first/last-element access on a possibly empty list in the validators (validation reports, it does not raise IndexError).'
 
 
 def signature_rule(ctx, rule, funcs, floor_sites):
@@ -75,6 +75,11 @@ def run(ctx):
     scope = [f for f in closure if f.module.name.startswith("hed.validator")]
     ctx.floor("R1.3", "validator functions in closure", len(scope), 45)
     check_no_dropped_issues(ctx, "R1.3", scope)
+    ctx.rule("R1.6", "no first/last-element access on a possibly empty list in the validators (validation reports, it does not raise)")
+    from sa.firstelem import check_first_elem
+    nfe = check_first_elem(ctx, "R1.6", [f for f in prog.functions.values() if f.module.name.startswith("hed.validator")],
+                           "An annotation with empty groups (`(),()`) is a one-fault input that must draw TAG_EMPTY.")
+    ctx.floor("R1.6", "first/last-element accesses in the validators", nfe, 8)
     ctx.rule("R1.5", "every string-level check runs on every string (no early exit skips the delimiter / parenthesis checks)")
     from rules.c02 import string_checks_always_run
     string_checks_always_run(ctx, "R1.5")
